@@ -174,6 +174,11 @@ def run(rep, tier):
                 if any(x["res"] in ("panic", "?") for x in res):
                     problems.append("a path of the assembler neither returns Ok nor Err")
                 oks = [(x["insns"], x["conds"]) for x in res if x["res"] == "Ok"]
+                # the carve-out of the statement is "32-bit immediates that are non-negative": for those - and for every
+                # offset and register - the printed text must be accepted.  Decided at the boundaries of each field.
+                refused = _refused_samples(conds0, [c for _i, c in oks], d)
+                if refused:
+                    problems.append("the assembler refuses the printed text for %s" % refused[0])
                 if not oks:
                     # rejected text is allowed only through a range check (e.g. negative immediates)
                     continue
@@ -221,6 +226,41 @@ def run(rep, tier):
     rep.trust("rustc front end / typed THIR", "alloc::fmt: `{}` prints decimal, `{:#x}` prints 0x + the two's-complement bit pattern",
               "combine: whitespace handling and the accepted language of the combinators")
     rep.assume("the second slot of lddw is covered by C13/R13.d and C15/R15.b")
+
+
+def _refused_samples(conds0, ok_conds, d):
+    """field valuations (non-negative immediate) on this rendering path for which no accepting path of the assembler has
+    all its conditions true; valuations whose conditions cannot be evaluated are skipped"""
+    import itertools
+    FV = {"dst": ("v", "dst", 8), "src": ("v", "src", 8), "off": ("v", "off", 16), "imm": ("v", "imm", 32), "next.imm": ("v", "next.imm", 32)}
+    doms = {"dst": (0, 9, 10), "src": (0, 10), "off": (0, 1, 0x7ffe, 0x7fff, 0x8000, 0x8001, 0xffff),
+            "imm": (0, 1, 0x7fffffff), "next.imm": (0, 0x7fffffff, 0x80000000, 0xffffffff)}
+    if d["kind"] == "lddw":
+        doms["imm"] = (0, 1, 0x7fffffff, 0x80000000, 0xffffffff)
+    out = []
+    names = list(doms)
+    for vals in itertools.product(*[doms[n] for n in names]):
+        env = {FV[n]: x for n, x in zip(names, vals)}
+        env[("v", "pc", 64)] = 3
+        try:
+            if not all(T.ceval(c, env) for c in conds0):
+                continue
+        except ValueError:
+            continue
+        verdict = False
+        unknown = False
+        for cs in ok_conds:
+            try:
+                if all(T.ceval(c, env) for c in cs):
+                    verdict = True
+                    break
+            except ValueError:
+                unknown = True
+        if not verdict and not unknown:
+            out.append(", ".join("%s=%#x" % (n, x) for n, x in zip(names, vals) if n in ("off", "imm")))
+            if len(out) > 2:
+                break
+    return out
 
 
 def _used_fields(d, var):
